@@ -158,8 +158,9 @@ def check(prop, tier, jobs, write_evidence=True):
     oor = [o for r in results for o in r["out_of_reach"]]
     recs = [rec for r in results for rec in r["records"]]
     obligations = {}
+    bounded_obs = {}
     for rec in recs:
-        obligations.setdefault(rec["obligation"], []).append(rec)
+        (bounded_obs if rec.get("bounded") else obligations).setdefault(rec["obligation"], []).append(rec)
     violations, undecided, known_hits = [], [], []
     discharged = 0
     for name, rs in sorted(obligations.items()):
@@ -183,6 +184,12 @@ def check(prop, tier, jobs, write_evidence=True):
             undecided.append((name, unk))
         if hits and not unmatched:
             known_hits.append((name, hits))
+    for name, rs in sorted(bounded_obs.items()):
+        bad = [r for r in rs if r["verdict"] != "unsat"]
+        if bad and not all(match_known(r, known, prop) for r in bad):
+            violations.append((name, bad))
+        elif bad:
+            known_hits.append((name, [(match_known(r, known, prop), r) for r in bad]))
     code = 0
     for name, hits in known_hits:
         k = hits[0][0]
@@ -208,7 +215,7 @@ def check(prop, tier, jobs, write_evidence=True):
         for name in lost:
             print(f"CHECKER-FAILURE lost-coverage obligation={name}")
         code = 3
-    n_ob = len(obligations) - len(known_hits)
+    n_ob = len(obligations) - len([1 for n, _ in known_hits if n in obligations])
     if code == 0 and n_ob <= 0:
         print(f"CHECKER-FAILURE property={prop}: zero obligations generated")
         code = 3
